@@ -145,6 +145,14 @@ Proof.
       all: replace (0 + sumwN (c0 :: cs')) with cw by lia; reflexivity.
 Qed.
 
+Lemma tdb_reserialize s s' : wfb s -> tdb_dec false (tdb_enc s) = Ok s' -> tdb_enc s' = tdb_enc s.
+Proof. intros W H. rewrite (tdb_roundtrip s W) in H. congruence. Qed.
+
+(* example used in Props/C11_tdigest.v: k = 100, reverse_merge set, centroids (1.0, w1) (2.5, w7) (4.0, w1) *)
+Definition c11_example_state : tdb :=
+  mkTdb 100 true 0x3ff0000000000000 0x4010000000000000
+        [(0x3ff0000000000000, 1); (0x4004000000000000, 7); (0x4010000000000000, 1)] 9 [].
+
 (* ---------------- C14: never stuck ---------------- *)
 Lemma obind_ns {A B} (x : outcome A) (f : A -> outcome B) :
   x <> Stuck -> (forall a, f a <> Stuck) -> obind x f <> Stuck.
